@@ -207,9 +207,9 @@ func checkCmd(args []string) int {
 		nObl, nDischarged, nBounded, nCache int
 		bySolver                             = map[string]int{}
 		solverSecs                           float64
-		undecided, unsupported, vacuous      []string
-		violations                           []string
-		knownPrinted                         []string
+		undecided, unsupported, vacuous      = []string{}, []string{}, []string{}
+		violations                           = []string{}
+		knownPrinted                         = []string{}
 		samples                              []any
 		fnSet                                = map[string]bool{}
 		assumed                              = map[string]bool{}
@@ -246,7 +246,7 @@ func checkCmd(args []string) int {
 			}
 		}
 	}
-	var conditionalList []string
+	conditionalList := []string{}
 	exit := 0
 	for _, r := range results {
 		name := r.vc.Name
@@ -363,7 +363,7 @@ func checkCmd(args []string) int {
 		"callee contracts used as axioms are re-proved in this same check (untagged and " + prop + "-tagged clauses)",
 		"SMT solvers z3 5.1.0 / z3 4.8.12 / cvc5 1.0.3 are sound (unsat results)",
 	}
-	var trusted []string
+	trusted := []string{}
 	for a := range assumed {
 		trusted = append(trusted, "assumed library contract: "+a)
 	}
